@@ -739,3 +739,193 @@ Proof.
   - intros i Hi. lia.
   - cbn [Nat.sub rsum]. lra.
 Qed.
+
+(* ======================= Part 4: the eigenvector residual, closed statements ========= *)
+(* state k of the model: its eigenvalue rho is the Rayleigh quotient of its vector x (the SAME
+   vector), x is not the zero vector, and ||A x - rho x||^2 <= (1+g) |lam_0| |rho - lam_0| ||x||^2 *)
+Lemma residual_bound : forall (n : nat) (A : arr R) (q : nat -> nat -> R) (lam c : nat -> R) (g : R),
+  (1 <= n)%nat -> ah A = n -> aw A = n ->
+  (forall i j, (i < n)%nat -> (j < n)%nat ->
+     dotf n (q i) (q j) = if (i =? j)%nat then 1 else 0) ->
+  (forall i s, (i < n)%nat -> (s < n)%nat -> mvf n (aget A) (q i) s = lam i * q i s) ->
+  (forall t, (t < n)%nat -> 1 = rsum n (fun i => c i * q i t)) ->
+  c 0%nat <> 0 -> lam 0%nat <> 0 -> 0 <= g <= 1 / 2 ->
+  (forall i, (1 <= i < n)%nat -> Rabs (lam i) <= g * Rabs (lam 0%nat)) ->
+  forall k rho x, pm_state A k = Ok (rho, x) ->
+    let xi := fun i => aget x i 0 in
+    0 < rsum n (fun s => xi s ^ 2) /\
+    rho = rqf n (aget A) xi /\
+    rsum n (fun s => (mvf n (aget A) xi s - rho * xi s) ^ 2) <=
+    (1 + g) * Rabs (lam 0%nat) * Rabs (rho - lam 0%nat) * rsum n (fun s => xi s ^ 2).
+Proof. exact residual_bound_sec. Qed.
+
+Lemma residual_accuracy_pm : forall (rows : list (list R)) (es ev : R) (v : arr R)
+    (n : nat) (A : arr R) (q : nat -> nat -> R) (lam c : nat -> R) (g : R),
+  power_method rows es = Ok (ev, v) -> try_from rows = Ok A ->
+  (1 <= n)%nat -> ah A = n -> aw A = n ->
+  (forall i j, (i < n)%nat -> (j < n)%nat ->
+     dotf n (q i) (q j) = if (i =? j)%nat then 1 else 0) ->
+  (forall i s, (i < n)%nat -> (s < n)%nat -> mvf n (aget A) (q i) s = lam i * q i s) ->
+  (forall t, (t < n)%nat -> 1 = rsum n (fun i => c i * q i t)) ->
+  c 0%nat <> 0 -> lam 0%nat <> 0 -> 0 <= g <= 1 / 2 ->
+  (forall i, (1 <= i < n)%nat -> Rabs (lam i) <= g * Rabs (lam 0%nat)) ->
+  exists (k : nat) (prev : R) (x : arr R),
+    (N.of_nat k < MAX_ITERATIONS)%N /\
+    pm_state A k = Ok (prev, x) /\ pm_state A (S k) = Ok (ev, v) /\
+    (Rabs (prev - lam 0%nat) <= (1 - g) * Rabs (lam 0%nat) / 2 ->
+     let vi := fun i => aget v i 0 in
+     let Av := mvf n (aget A) vi in
+     rsum n (fun i => (Av i - ev * vi i) ^ 2) <
+     (1 + g) * es * lam 0%nat ^ 2 * rsum n (fun i => vi i ^ 2)).
+Proof.
+  intros rows es ev v n A q lam c g Hpm Htf Hn HA1 HA2 Horth Heig Hones Hc0 Hl0 Hg Hgap.
+  destruct (stop_rule_accuracy_pm rows es ev v n A q lam c g Hpm Htf Hn HA1 HA2 Horth Heig Hones
+              Hc0 Hl0 Hg Hgap) as [k [prev [x [Hk [Hst [HstS Himp]]]]]].
+  exists k, prev, x. split; [exact Hk|]. split; [exact Hst|]. split; [exact HstS|].
+  intro Hb. cbv zeta. specialize (Himp Hb).
+  destruct (residual_bound n A q lam c g Hn HA1 HA2 Horth Heig Hones Hc0 Hl0 Hg Hgap (S k) ev v HstS)
+    as [HV [_ HB]]. cbv zeta in HV, HB.
+  eapply Rle_lt_trans; [exact HB|].
+  set (V := rsum n (fun s => aget v s 0 ^ 2)) in *.
+  set (L := Rabs (lam 0%nat)) in *. set (e := Rabs (ev - lam 0%nat)) in *.
+  assert (HL : 0 < L) by (apply Rabs_pos_lt; exact Hl0).
+  rewrite <- (pow2_abs (lam 0%nat)). fold L.
+  assert (HK : 0 < (1 + g) * L * V).
+  { apply Rmult_lt_0_compat; [apply Rmult_lt_0_compat; lra|exact HV]. }
+  replace ((1 + g) * L * e * V) with ((1 + g) * L * V * e) by ring.
+  replace ((1 + g) * es * L ^ 2 * V) with ((1 + g) * L * V * (es * L)) by ring.
+  apply Rmult_lt_compat_l; assumption.
+Qed.
+
+Lemma residual_accuracy_pm_start : forall (rows : list (list R)) (es ev : R) (v : arr R)
+    (n : nat) (A : arr R) (q : nat -> nat -> R) (lam c : nat -> R) (g : R),
+  power_method rows es = Ok (ev, v) -> try_from rows = Ok A ->
+  (1 <= n)%nat -> ah A = n -> aw A = n ->
+  (forall i j, (i < n)%nat -> (j < n)%nat ->
+     dotf n (q i) (q j) = if (i =? j)%nat then 1 else 0) ->
+  (forall i s, (i < n)%nat -> (s < n)%nat -> mvf n (aget A) (q i) s = lam i * q i s) ->
+  (forall t, (t < n)%nat -> 1 = rsum n (fun i => c i * q i t)) ->
+  c 0%nat <> 0 -> lam 0%nat <> 0 -> 0 <= g <= 1 / 2 ->
+  (forall i, (1 <= i < n)%nat -> Rabs (lam i) <= g * Rabs (lam 0%nat)) ->
+  4 * g ^ 2 * rsum (n - 1) (fun i => c (S i) ^ 2) <= (1 - g) * c 0%nat ^ 2 ->
+  let vi := fun i => aget v i 0 in
+  let Av := mvf n (aget A) vi in
+  rsum n (fun i => (Av i - ev * vi i) ^ 2) <
+  (1 + g) * es * lam 0%nat ^ 2 * rsum n (fun i => vi i ^ 2).
+Proof.
+  intros rows es ev v n A q lam c g Hpm Htf Hn HA1 HA2 Horth Heig Hones Hc0 Hl0 Hg Hgap Hstart.
+  destruct (residual_accuracy_pm rows es ev v n A q lam c g Hpm Htf Hn HA1 HA2 Horth Heig Hones
+              Hc0 Hl0 Hg Hgap) as [k [prev [x [_ [Hst [_ Himp]]]]]].
+  apply Himp.
+  apply (basin_after n A q lam c g Hn HA1 HA2 Horth Heig Hones Hc0 Hl0 Hg Hgap k prev x Hst).
+  assert (HS : 0 <= rsum (n - 1) (fun i => c (S i) ^ 2)).
+  { apply rsum_nonneg. intros; apply pow2_ge_0. }
+  assert (HP : g ^ (2 * k + 2) <= g ^ 2) by (apply pow_even_le_sq; lra).
+  assert (g ^ (2 * k + 2) * rsum (n - 1) (fun i => c (S i) ^ 2)
+          <= g ^ 2 * rsum (n - 1) (fun i => c (S i) ^ 2)) by (apply Rmult_le_compat_r; assumption).
+  lra.
+Qed.
+
+(* non-vacuity: state 1 of diag(2,1) (hypotheses discharged with q_i = e_i, c = (1,1), g = 1/2) *)
+Lemma residual_example : exists rho x,
+  pm_state D21 1 = Ok (rho, x) /\
+  0 < rsum 2 (fun s => aget x s 0 ^ 2) /\
+  rsum 2 (fun s => (mvf 2 (aget D21) (fun i => aget x i 0) s - rho * aget x s 0) ^ 2) <=
+  (1 + 1 / 2) * Rabs 2 * Rabs (rho - 2) * rsum 2 (fun s => aget x s 0 ^ 2).
+Proof.
+  assert (Hl0 : lam21 0%nat <> 0) by (unfold lam21; cbn [Nat.eqb]; lra).
+  assert (Hg' : 0 <= 1 / 2 < 1) by lra.
+  assert (Hg : 0 <= 1 / 2 <= 1 / 2) by lra.
+  destruct (c13_rayleigh_error_R 2 D21 q21 lam21 (fun _ => 1) (1 / 2)
+              (le_S _ _ (le_n 1)) eq_refl eq_refl d21_orth d21_eig d21_ones R1_neq_R0 Hl0 Hg' d21_gap 1%nat)
+    as [rho [x [Hst _]]].
+  destruct (residual_bound 2 D21 q21 lam21 (fun _ => 1) (1 / 2)
+              (le_S _ _ (le_n 1)) eq_refl eq_refl d21_orth d21_eig d21_ones R1_neq_R0 Hl0 Hg d21_gap
+              1%nat rho x Hst) as [HV [_ HB]].
+  exists rho, x. split; [exact Hst|]. split; [exact HV|].
+  unfold lam21 in HB. cbn [Nat.eqb] in HB. exact HB.
+Qed.
+
+(* ... and the end-to-end statement on the 1 x 1 matrix (2) *)
+Lemma residual_pm_example : exists ev v, power_method [[2]] (1 / 2) = Ok (ev, v) /\
+  rsum 1 (fun i => (mvf 1 (aget (mk_arr 1 1 [2])) (fun i => aget v i 0) i - ev * aget v i 0) ^ 2) <
+  (1 + 0) * (1 / 2) * 2 ^ 2 * rsum 1 (fun i => aget v i 0 ^ 2).
+Proof.
+  eexists _, _. split; [apply c13_accuracy_1x1_R; lra|].
+  apply (residual_accuracy_pm_start [[2]] (1 / 2) 2 (mk_arr 1 1 [1]) 1 (mk_arr 1 1 [2])
+           (fun _ _ => 1) (fun _ => 2) (fun _ => 1) 0).
+  - apply c13_accuracy_1x1_R; lra.
+  - reflexivity.
+  - lia.
+  - reflexivity.
+  - reflexivity.
+  - intros i j Hi Hj. assert (i = 0)%nat by lia. assert (j = 0)%nat by lia. subst.
+    unfold dotf. cbn [rsum Nat.eqb]. ring.
+  - intros i s Hi Hs. assert (s = 0)%nat by lia. subst.
+    unfold mvf, aget. cbn [rsum aw ad nth Nat.mul Nat.add]. ring.
+  - intros t Ht. cbn [rsum]. ring.
+  - lra.
+  - lra.
+  - lra.
+  - intros i Hi. lia.
+  - cbn [Nat.sub rsum]. lra.
+Qed.
+
+(* the same with the RETURNED eigenvalue on the right-hand side (the property's form): inside
+   the basin |lam_0| <= 2 |ev|, hence ||A v - ev v||^2 < 4 (1+g) es ev^2 ||v||^2 *)
+Lemma residual_accuracy_pm_start_ev : forall (rows : list (list R)) (es ev : R) (v : arr R)
+    (n : nat) (A : arr R) (q : nat -> nat -> R) (lam c : nat -> R) (g : R),
+  power_method rows es = Ok (ev, v) -> try_from rows = Ok A ->
+  (1 <= n)%nat -> ah A = n -> aw A = n ->
+  (forall i j, (i < n)%nat -> (j < n)%nat ->
+     dotf n (q i) (q j) = if (i =? j)%nat then 1 else 0) ->
+  (forall i s, (i < n)%nat -> (s < n)%nat -> mvf n (aget A) (q i) s = lam i * q i s) ->
+  (forall t, (t < n)%nat -> 1 = rsum n (fun i => c i * q i t)) ->
+  c 0%nat <> 0 -> lam 0%nat <> 0 -> 0 <= g <= 1 / 2 ->
+  (forall i, (1 <= i < n)%nat -> Rabs (lam i) <= g * Rabs (lam 0%nat)) ->
+  4 * g ^ 2 * rsum (n - 1) (fun i => c (S i) ^ 2) <= (1 - g) * c 0%nat ^ 2 ->
+  let vi := fun i => aget v i 0 in
+  let Av := mvf n (aget A) vi in
+  rsum n (fun i => (Av i - ev * vi i) ^ 2) <
+  4 * (1 + g) * es * ev ^ 2 * rsum n (fun i => vi i ^ 2).
+Proof.
+  intros rows es ev v n A q lam c g Hpm Htf Hn HA1 HA2 Horth Heig Hones Hc0 Hl0 Hg Hgap Hstart.
+  pose proof (residual_accuracy_pm_start rows es ev v n A q lam c g Hpm Htf Hn HA1 HA2 Horth Heig
+                Hones Hc0 Hl0 Hg Hgap Hstart) as HR.
+  pose proof (stop_rule_accuracy_pm_start rows es ev v n A q lam c g Hpm Htf Hn HA1 HA2 Horth Heig
+                Hones Hc0 Hl0 Hg Hgap Hstart) as HE.
+  destruct (stop_rule_accuracy_pm rows es ev v n A q lam c g Hpm Htf Hn HA1 HA2 Horth Heig Hones
+              Hc0 Hl0 Hg Hgap) as [k [prev [x [_ [Hst [HstS _]]]]]].
+  assert (Hb : Rabs (prev - lam 0%nat) <= (1 - g) * Rabs (lam 0%nat) / 2).
+  { apply (basin_after n A q lam c g Hn HA1 HA2 Horth Heig Hones Hc0 Hl0 Hg Hgap k prev x Hst).
+    assert (HS : 0 <= rsum (n - 1) (fun i => c (S i) ^ 2)).
+    { apply rsum_nonneg. intros; apply pow2_ge_0. }
+    assert (HP : g ^ (2 * k + 2) <= g ^ 2) by (apply pow_even_le_sq; lra).
+    assert (g ^ (2 * k + 2) * rsum (n - 1) (fun i => c (S i) ^ 2)
+            <= g ^ 2 * rsum (n - 1) (fun i => c (S i) ^ 2)) by (apply Rmult_le_compat_r; assumption).
+    lra. }
+  destruct (rayleigh_error_contracts n A q lam c g Hn HA1 HA2 Horth Heig Hones Hc0 Hl0 Hg Hgap
+              k prev x ev v Hst HstS Hb) as [_ [_ Hb']].
+  destruct (residual_bound n A q lam c g Hn HA1 HA2 Horth Heig Hones Hc0 Hl0 Hg Hgap (S k) ev v HstS)
+    as [HV _].
+  cbv beta zeta in *.
+  set (V := rsum n (fun s => aget v s 0 ^ 2)) in *.
+  set (L := Rabs (lam 0%nat)) in *.
+  assert (HL : 0 < L) by (apply Rabs_pos_lt; exact Hl0).
+  pose proof (Rabs_pos (ev - lam 0%nat)) as He.
+  assert (Hes : 0 < es).
+  { destruct (Rlt_or_le 0 es) as [H|H]; [exact H|]. exfalso. nra. }
+  assert (HLe : L <= 2 * Rabs ev).
+  { assert (Ht : L <= Rabs ev + Rabs (ev - lam 0%nat)).
+    { unfold L. replace (lam 0%nat) with (ev - (ev - lam 0%nat)) at 1 by ring.
+      unfold Rminus at 1. eapply Rle_trans; [apply Rabs_triang|]. rewrite Rabs_Ropp. lra. }
+    assert (0 <= g * L) by (apply Rmult_le_pos; lra). lra. }
+  assert (HL2 : lam 0%nat ^ 2 <= 4 * ev ^ 2).
+  { rewrite <- (pow2_abs (lam 0%nat)), <- (pow2_abs ev). fold L. pose proof (Rabs_pos ev). nra. }
+  eapply Rlt_le_trans; [exact HR|].
+  assert (HK : 0 <= (1 + g) * es * V).
+  { apply Rmult_le_pos; [apply Rmult_le_pos; lra|lra]. }
+  replace ((1 + g) * es * lam 0%nat ^ 2 * V) with ((1 + g) * es * V * lam 0%nat ^ 2) by ring.
+  replace (4 * (1 + g) * es * ev ^ 2 * V) with ((1 + g) * es * V * (4 * ev ^ 2)) by ring.
+  apply Rmult_le_compat_l; assumption.
+Qed.
